@@ -14,7 +14,8 @@ def canon(s):
 
 
 def rust_ty(f):
-    base = {"u8": "u8", "str": "String", "bytes": "Vec<u8>", "cu": "u8"}.get(f["ty"]) or NESTED[f["ty"]]
+    base = {"u8": "u8", "str": "String", "bytes": "Vec<u8>", "cu": "u8", "bstr": "&'a str", "bslice": "&'a minicbor::bytes::ByteSlice",
+            "bu8": "&'a [u8]", "cowb": "std::borrow::Cow<'a, str>", "cown": "std::borrow::Cow<'a, str>"}.get(f["ty"]) or NESTED[f["ty"]]
     if f.get("skip"):
         return "u8"
     if f["opt"] and f["ty"] != "cu":
@@ -39,15 +40,26 @@ def generic_params(fields):
     return out
 
 
+BORROW_TYS = ("bstr", "bslice", "bu8", "cowb", "cown")
+
+
+def borrows(fields):
+    return any(f["ty"] in BORROW_TYS and not f.get("skip") for f in fields)
+
+
 def field_attr(f, rng):
     if f.get("skip"):
         return "#[cbor(skip)]"
     idx = f["idx"]
     letter = rng.choice(["n", "b"]) if f["ty"] in ("u8", "str", "cu") else "n"
+    if f["ty"] in ("bstr", "bslice"):
+        letter = rng.choice(["n", "b"])          # these borrow implicitly, whatever the spelling
+    if f["ty"] in ("bu8", "cowb"):
+        letter = "b"
     extra = []
     if f["tag"] >= 0:
         extra.append(f"tag({f['tag']})")
-    if f["ty"] == "bytes":
+    if f["ty"] in ("bytes", "bu8"):
         extra.append('with = "minicbor::bytes"')
     if f["ty"] == "cu":
         extra.append('with = "crate::cu"')
@@ -63,7 +75,9 @@ def from_expr(f, src):
     if f.get("skip"):
         return "0u8"
     ty = f["ty"]
-    inner = {"u8": f"fv_u8(&{src})", "cu": f"fv_u8(&{src})", "str": f"fv_str(&{src})", "bytes": f"fv_bytes(&{src})"}.get(ty) \
+    inner = {"u8": f"fv_u8(&{src})", "cu": f"fv_u8(&{src})", "str": f"fv_str(&{src})", "bytes": f"fv_bytes(&{src})",
+             "bstr": f"leak_str(fv_str(&{src}))", "bslice": f"leak_bytes(fv_bytes(&{src})).into()", "bu8": f"leak_bytes(fv_bytes(&{src}))",
+             "cowb": f"std::borrow::Cow::Owned(fv_str(&{src}))", "cown": f"std::borrow::Cow::Owned(fv_str(&{src}))"}.get(ty) \
         or f"<{NESTED.get(ty, 'u8')} as Dv>::from_json(&{src}[\"sub\"])"
     if f["opt"] and ty != "cu":
         e = f"if {src}[\"some\"] == true {{ Some({inner}) }} else {{ None }}"
@@ -78,7 +92,9 @@ def to_expr(f, val):
     ty = f["ty"]
 
     def one(v):
-        return {"u8": f"j_u8(*{v})", "cu": f"j_u8(*{v})", "str": f"j_bytes({v}.as_bytes())", "bytes": f"j_bytes({v})"}.get(ty) or f"j_sub({v}.to_json())"
+        return {"u8": f"j_u8(*{v})", "cu": f"j_u8(*{v})", "str": f"j_bytes({v}.as_bytes())", "bytes": f"j_bytes({v})",
+                "bstr": f"j_borrowed({v}.as_bytes())", "bslice": f"j_borrowed(&{v}[..])", "bu8": f"j_borrowed({v})",
+                "cowb": f"j_cow({v}, true)", "cown": f"j_cow({v}, false)"}.get(ty) or f"j_sub({v}.to_json())"
     if f["opt"] and ty != "cu":
         scrut = f"&**{val}" if f.get("osp") == "boxed" else val
         return f"match {scrut} {{ Some(x) => {one('x')}, None => j_none() }}"
@@ -131,8 +147,9 @@ def gen_type(name, s, seed):
             body, ctor, pat, tos = gen_fields_struct(name, "", s["shape"], s["fields"], rng)
         semi = ";" if body.startswith("(") else ""
         gp = generic_params(s["fields"]) if not s["transparent"] else []
-        decl_g = "<" + ", ".join(g for g, _ in gp) + ">" if gp else ""
-        inst_g = "<" + ", ".join(t for _, t in gp) + ">" if gp else ""
+        lt = borrows(s["fields"])
+        decl_g = "<" + ", ".join((["'a"] if lt else []) + [g for g, _ in gp]) + ">" if (gp or lt) else ""
+        inst_g = "<" + ", ".join((["'static"] if lt else []) + [t for _, t in gp]) + ">" if (gp or lt) else ""
         out.append(f"pub struct {name}{decl_g} {body}{semi}")
         INST[name] = name + inst_g
         out.append(f"impl Dv for {name}{inst_g} {{")
@@ -170,8 +187,11 @@ def gen_type(name, s, seed):
             body, ctor, pat, tos = parts[k]
             froms.append(f"            {k + 1} => {{ let v = &v[\"fv\"]; {name}::{vn} {ctor} }}")
             tos_all.append(f"            {name}::{vn} {pat} => json!({{\"var\": {k + 1}, \"fv\": [{', '.join(tos)}]}}),")
-    out.append(f"pub enum {name} {{\n" + ",\n".join(vs) + "\n}")
-    out.append(f"impl Dv for {name} {{")
+    lt = any(borrows(va["fields"]) for va in s["variants"])
+    out.append(f"pub enum {name}{'<' + chr(39) + 'a>' if lt else ''} {{\n" + ",\n".join(vs) + "\n}")
+    if lt:
+        INST[name] = name + "<'static>"
+    out.append(f"impl Dv for {name}{'<' + chr(39) + 'static>' if lt else ''} {{")
     out.append("    fn from_json(v: &Value) -> Self {\n        match v[\"var\"].as_u64().unwrap() {\n" + "\n".join(froms) + "\n            _ => panic!(\"bad variant position\")\n        }\n    }")
     out.append("    #[allow(unused_variables)]\n    fn to_json(&self) -> Value {\n        match self {\n" + "\n".join(tos_all) + "\n        }\n    }")
     out.append("}")
